@@ -55,6 +55,8 @@ def run(tier, seed, replay=None):
     plans = [g.inherent() for _ in range(n)]
     for p_ in plans:
         if rng.random() < 0.3:
+            p_.items.append(("cfgoff", "OFF", False))     # an item configured out in every block, with attributes (seeded change C17i)
+        if rng.random() < 0.3:
             p_.items.append(("gfn", "mkarr", False))      # generic method, const parameter declared before the type parameter (seeded change C17h)
         if rng.random() < 0.25:
             p_.header_qual = "self::"      # `impl<..> self::Wr<..>`: the helper trait is named by the last segment alone (D45)
